@@ -66,9 +66,11 @@ type Driver struct {
 	frozenReady  map[uint64]bool // the node's Ready pipeline is stalled
 	frozenAppend map[uint64]bool // append thread stalled
 	frozenApply  map[uint64]bool // apply thread stalled
+	frozenLocal  map[uint64]bool // the append thread's acknowledgements to the node itself are delayed
 	loseUnsynced bool
-	holdTypes    map[pb.MessageType]bool // message types kept in the network (delayed)
-	wholePct     int                     // how often a chosen Ready step runs the node's whole pipeline
+	holdTypes    map[pb.MessageType]bool  // message types kept in the network (delayed)
+	holdIf       func(m *pb.Message) bool // further messages kept in the network
+	wholePct     int                      // how often a chosen Ready step runs the node's whole pipeline
 	sinceMaint   int
 }
 
@@ -167,7 +169,7 @@ func GenCluster(r *rand.Rand, p Profile, seed int64, w Wish) JCluster {
 
 func NewDriver(c *Cluster, r *rand.Rand, p Profile) *Driver {
 	d := &Driver{c: c, r: r, p: p, nextPid: 1, nextRid: 1, blocked: map[[2]uint64]bool{},
-		frozenReady: map[uint64]bool{}, frozenAppend: map[uint64]bool{}, frozenApply: map[uint64]bool{},
+		frozenReady: map[uint64]bool{}, frozenAppend: map[uint64]bool{}, frozenApply: map[uint64]bool{}, frozenLocal: map[uint64]bool{},
 		holdTypes: map[pb.MessageType]bool{}, wholePct: 75}
 	c.rtoDraw = func(id uint64, et int) int { return et + r.Intn(et) }
 	return d
@@ -318,8 +320,11 @@ func (d *Driver) Step() bool {
 		if st := nextReadyStep(n); st != "" && !d.frozenReady[n.ID] {
 			add("ReadyStep", p.ReadyStep, Step{Act: st, Node: n.ID})
 		}
+		if len(n.LocalQ) > 0 && !d.frozenLocal[n.ID] {
+			add("LocalResp", 2*p.AppendTh, Step{Act: "LocalResp", Node: n.ID})
+		}
 		if len(n.AppendQ) > 0 && !d.frozenAppend[n.ID] {
-			add("AppendTh", p.AppendTh, Step{Act: "AppendThread", Node: n.ID})
+			add("AppendTh", p.AppendTh, Step{Act: "AppendThread", Node: n.ID, Keep: pct(d.r, 15)})
 			add("CrashInAppend", p.CrashInAppend, Step{Act: "CrashInAppend", Node: n.ID, K: uint64(d.r.Intn(2))})
 		}
 		if len(n.ApplyQ) > 0 && !d.frozenApply[n.ID] {
@@ -354,7 +359,7 @@ func (d *Driver) Step() bool {
 	if len(c.Net) > 0 {
 		var deliverable []*NetMsg
 		for _, nm := range c.Net {
-			if d.linkOK(nm.M.GetFrom(), nm.M.GetTo()) && c.up(nm.M.GetTo()) != nil && !d.holdTypes[nm.M.GetType()] {
+			if d.linkOK(nm.M.GetFrom(), nm.M.GetTo()) && c.up(nm.M.GetTo()) != nil && !d.holdTypes[nm.M.GetType()] && (d.holdIf == nil || !d.holdIf(nm.M)) {
 				deliverable = append(deliverable, nm)
 			}
 		}
@@ -518,6 +523,9 @@ func (d *Driver) Stabilize(rounds int) {
 					if c.up(id) == nil {
 						break
 					}
+				}
+				for c.up(id) != nil && len(n.LocalQ) > 0 && c.Do(Step{Act: "LocalResp", Node: id}) {
+					progress = true
 				}
 				for c.up(id) != nil && len(n.AppendQ) > 0 && c.Do(Step{Act: "AppendThread", Node: id}) {
 					progress = true
